@@ -17,13 +17,17 @@ ASSUMPTIONS = [
 ]
 IMPORTS = "From V Require Import Model.ClientProto Harness.Cmp Harness.H03."
 
-KINDS = ["normal", "raise", "sec", "oneway", "batch", "batchraise", "batchoneway", "attr", "stream"]
+KINDS = ["normal", "raise", "sec", "oneway", "onewayraise", "batch", "batchraise", "batchoneway", "batchonewaybad", "attr", "stream"]
 CK = {"normal": "KNormal", "raise": "KRaise", "sec": "KSecErr", "oneway": "KOneway", "batch": "KBatch",
-      "batchraise": "KBatchRaise", "batchoneway": "KBatchOneway", "attr": "KAttr", "stream": "KStream"}
-RETRY_KINDS = ("normal", "raise", "sec", "oneway")
-ONEWAY_KINDS = ("oneway", "batchoneway")
+      "batchraise": "KBatchRaise", "batchoneway": "KBatchOneway", "attr": "KAttr", "stream": "KStream",
+      # a oneway request is a oneway request whatever its method does: same model kind
+      "onewayraise": "KOneway",            # @oneway method that raises after logging
+      "batchonewaybad": "KBatchOneway"}    # oneway batch with a trailing member that is not exposed (fails in the daemon)
+RETRY_KINDS = ("normal", "raise", "sec", "oneway", "onewayraise")
+ONEWAY_KINDS = ("oneway", "onewayraise", "batchoneway", "batchonewaybad")
+BATCH_KINDS = ("batch", "batchraise", "batchoneway", "batchonewaybad")
 EXPECT = {"normal": "result", "batch": "result", "attr": "result", "stream": "result", "raise": "raised", "batchraise": "raised",
-          "sec": "sec", "oneway": "none", "batchoneway": "none"}
+          "sec": "sec", "oneway": "none", "batchoneway": "none", "onewayraise": "none", "batchonewaybad": "none"}
 FAULTS0 = ["deliver", "dropreq", "dropreply", "delay", "resetbefore", "resetafter", "resetafterreply", "resetdelivered", "dup", "wrongtype"]
 
 CUR = [0]          # token of the call being made (stands in for the argument of argument-less kinds)
@@ -61,6 +65,11 @@ def env():
         @api.oneway
         def ow(self, tok):
             self.log.append(tok)
+
+        @api.oneway
+        def owboom(self, tok):
+            self.log.append(tok)
+            raise ValueError(tok)
 
         def bm(self, tok, i):
             self.log.append((tok, i))
@@ -154,18 +163,28 @@ def canon_exc(x, errors):
     return ("other", "%s%r" % (type(x).__name__, x.args)[:80])
 
 
-def do_batch(e, p, kind, tok):
+def do_batch(e, p, kind, tok, bpbox):
+    """bpbox[0] is ONE BatchProxy that is re-used for every batch of the history (documented as re-usable); it is
+    replaced by a fresh one only after an invocation that raised (the user gives up on that batch)."""
     api, errors = e["api"], e["errors"]
     m = nmembers(tok)
-    b = api.BatchProxy(p)
+    if bpbox[0] is None:
+        bpbox[0] = api.BatchProxy(p)
+    b = bpbox[0]
     for i in range(m):
         if kind == "batchraise" and i == m - 1:
             b.bboom(tok, i)
         else:
             b.bm(tok, i)
-    if kind == "batchoneway":
-        return canon_value(kind, tok, b(oneway=True))
-    res = b()
+    if kind == "batchonewaybad":
+        b.nosuchmethod(tok)      # not checked client side; the daemon refuses it after running the members before it
+    try:
+        if kind in ("batchoneway", "batchonewaybad"):
+            return canon_value(kind, tok, b(oneway=True))
+        res = b()
+    except BaseException:
+        bpbox[0] = None
+        raise
     vals, exc = [], None
     try:
         for v in res:
@@ -229,6 +248,7 @@ def run_impl(case):
         p = api.Proxy(e["uri"])
         p._pyroMaxRetries = retries
         it = None
+        bpbox = [None]
         try:
             CUR[0] = 0
             p._pyroBind()
@@ -244,6 +264,7 @@ def run_impl(case):
                 CUR[0] = tok
                 net.script([fault_dict(f) for f in c["f"]])
                 net.delivered = 0
+                net.oneway_answered = 0
                 before = len(t.log)
                 try:
                     if kind == "normal":
@@ -254,8 +275,10 @@ def run_impl(case):
                         out = canon_value(kind, tok, p.sec(tok))
                     elif kind == "oneway":
                         out = canon_value(kind, tok, p.ow(tok))
-                    elif kind in ("batch", "batchraise", "batchoneway"):
-                        out = do_batch(e, p, kind, tok)
+                    elif kind == "onewayraise":
+                        out = canon_value(kind, tok, p.owboom(tok))
+                    elif kind in BATCH_KINDS:
+                        out = do_batch(e, p, kind, tok, bpbox)
                     elif kind == "attr":
                         out = canon_value(kind, tok, p.attr)
                     elif kind == "stream":
@@ -270,7 +293,9 @@ def run_impl(case):
                 net.script([])
                 delta = list(t.log[before:])
                 obs.append({"out": list(out), "log": canon_log(delta), "rawlog": [list(x) if isinstance(x, tuple) else x for x in delta],
-                            "conn": p._pyroConnection is not None, "seq": p._pyroSeq, "delivered": net.delivered})
+                            "conn": p._pyroConnection is not None, "seq": p._pyroSeq, "delivered": net.delivered,
+                            "oneway_answered": net.oneway_answered,
+                            "bp_pending": len(getattr(bpbox[0], "_BatchProxy__calls", [])) if bpbox[0] is not None else 0})
         finally:
             if it is not None:
                 it.proxy = None
@@ -286,6 +311,7 @@ def oracle(case, obs):
     bad = []
     retries = case["retries"]
     prev_failed = False
+    all_healthy = True      # no fault injected so far, and nothing that legitimately costs the connection
     for i, (c, o) in enumerate(zip(case["calls"], obs)):
         kind, tok = c["k"], c["tok"]
         n_eff = retries if kind in RETRY_KINDS else 0
@@ -316,7 +342,17 @@ def oracle(case, obs):
                 bad.append(("exec-count-returned", "%s returned but its method ran %d times (allowed 1..%d)" % (where, n, 1 + n_eff)))
         if failed and n > 1 + n_eff:
             bad.append(("exec-count-failed", "%s failed but its method ran %d times (allowed at most %d)" % (where, n, 1 + n_eff)))
+        if o.get("oneway_answered"):
+            bad.append(("oneway-request-answered", "%s: the server sent %d reply message(s) for a oneway request" % (where, o["oneway_answered"])))
+        if kind in BATCH_KINDS and returned and o.get("bp_pending"):
+            bad.append(("batch-proxy-not-cleared", "%s returned but the re-usable BatchProxy still holds %d call(s)" % (where, o["bp_pending"])))
         healthy = all(f[0] == "deliver" for f in c["f"])
+        all_healthy = all_healthy and healthy
+        if all_healthy and kind != "stream" and not (prev_failed and healthy):
+            if not (returned and out[0] == EXPECT[kind] and (out[0] == "none" or out[1] == tok) and n == 1):
+                bad.append(("healthy-call-failed", "%s: no fault was injected in this history so far, but this call gave %r with %d executions" % (where, out, n)))
+        if kind == "sec":
+            all_healthy = False     # the server drops the connection after a SecurityError (DESIGN section 7 row 14): the next call may fail
         if prev_failed and healthy and kind != "stream":
             if not (returned and out[0] == EXPECT[kind] and (out[0] == "none" or out[1] == tok) and n == 1):
                 bad.append(("not-recovered", "%s: the previous call failed with a communication error and the transport is healthy, "
@@ -394,8 +430,8 @@ def gen_case(rng, maxlen=8):
     hostile = rng.random() < 0.7
     calls = []
     for i in range(n):
-        kind = rng.choice(["normal", "normal", "normal", "raise", "oneway", "oneway", "batch", "batchraise", "batchoneway",
-                           "attr", "stream", "sec"] if rng.random() < 0.8 else ["normal", "oneway"])
+        kind = rng.choice(["normal", "normal", "normal", "raise", "oneway", "oneway", "onewayraise", "batch", "batch", "batchraise",
+                           "batchoneway", "batchoneway", "batchonewaybad", "attr", "stream", "sec"] if rng.random() < 0.8 else ["normal", "oneway"])
         nf = rng.choice([0, 1, 1, 2, 2, 3, 2 * (retries + 1)])
         calls.append({"k": kind, "tok": toks[i], "f": [gen_fault(rng, hostile) for _ in range(nf)]})
     return {"retries": retries, "seq0": seq0, "conn0": rng.random() < 0.6, "calls": calls}
@@ -426,6 +462,11 @@ def targeted():
                 out.append({"retries": r, "seq0": 65534, "conn0": True,
                             "calls": [N(11), N(12, [f], k), N(13, [], k), N(14)]})
             out.append({"retries": r, "seq0": 3, "conn0": False, "calls": [N(21), N(22, [], "oneway"), N(23, [f, f, f]), N(24, [D, f]), N(25)]})
+        # one re-usable BatchProxy across oneway / normal / raising batches, and failing oneway requests followed by normal calls
+        out.append({"retries": r, "seq0": 9, "conn0": True, "calls": [N(1, [], "batchoneway"), N(2, [], "batch"), N(3, [], "batchoneway"),
+                                                                     N(4, [], "batchraise"), N(5, [], "batch"), N(6)]})
+        out.append({"retries": r, "seq0": 9, "conn0": False, "calls": [N(1, [], "batchonewaybad"), N(2), N(3, [], "onewayraise"), N(4, [], "attr"),
+                                                                      N(5, [], "batchonewaybad"), N(6, [], "batch"), N(7)]})
         # remote SecurityError: delivered, the server closes, the next call fails with a communication error, the one after works
         out.append({"retries": r, "seq0": 0, "conn0": True, "calls": [N(1, [], "sec"), N(2), N(3), N(4, [], "sec"), N(5, [], "oneway"), N(6)]})
     return out
@@ -490,7 +531,7 @@ def run(ctx, model_ok=True):
     cases = vlib.load_corpus(PROP) + targeted() + gen_cases(ctx)
     execute(ctx, cases, model_ok, res)
     res.rule = ("histories of 1..8 (some up to 40) calls on one proxy — normal, raising, SecurityError, oneway, batch, raising batch, "
-                "oneway batch, attribute read, stream fetch — each call with its own fault script (one entry per client message, CONNECT "
+                "oneway batch, oneway calls whose method raises / whose batch names an unexposed member, attribute read, stream fetch; all batches of a history go through ONE re-used BatchProxy — each call with its own fault script (one entry per client message, CONNECT "
                 "included): deliver, request lost, reply lost, reply late, reply cut + reset, reset before/after processing, reset after "
                 "the full reply, reset after delivery but before the server handles the request, replay of an earlier reply, duplicate, altered sequence number, altered message type; MAX_RETRIES 0/1/2; "
                 "initial _pyroSeq around the 16-bit wrap; non-trivial = at least two calls and one non-deliver fault")
